@@ -88,6 +88,64 @@ def _one(args):
     return dist, n, errors, dens, pg, ppdf
 
 
+def _swarm_weight_paths(ctx):
+    import numpy as np
+    from phyclone.smc.samplers import SMCSampler
+    from phyclone.smc.utils import RootPermutationDistribution
+    from phyclone.utils.dev import clear_proposal_dist_caches
+
+    from ..kernels import KINDS, make_kernel, make_tree_dist
+    from ..trees import rational_values
+
+    n_paths = 0
+    for kind in KINDS:
+        for (dop, pop) in ((0.0, 0.0), (0.2, 0.1)):
+            for npts in (2, 3, 4):
+                for thr in (0.0, 1.0):
+                    vals = rational_values(ctx.rng, npts, 1, 3)
+                    data = make_data(vals, outlier_prob=dop)
+                    seed = ctx.rng.randrange(10**9)
+                    rng = np.random.default_rng(seed)
+                    clear_proposal_dist_caches()
+                    td = make_tree_dist(ctx.rng.choice([0.3, 1.0, 2.5]))
+                    kern = make_kernel(kind, td, rng, pop, True)
+                    order = list(data)
+                    ctx.rng.shuffle(order)
+                    N = 6
+                    smp = SMCSampler(order, kern, num_particles=N, resample_threshold=thr)
+                    swarm = smp.sample()
+                    tag = "%s:outliers=%s:thr=%s" % (kind, "on" if dop > 0 else "off", thr)
+                    replay = {"kernel": kind, "outlier_prob": dop, "outlier_proposal_prob": pop, "npts": npts, "resample_threshold": thr, "seed": seed,
+                              "order": [int(d.idx) for d in order], "values": [[[str(x) for x in row] for row in pt] for pt in vals]}
+                    logw = np.asarray(swarm.unnormalized_log_weights, dtype=float)
+                    expect = []
+                    for part in swarm.particles:
+                        chain = []
+                        q = part
+                        while q is not None:
+                            chain.append(q)
+                            q = q.parent_particle
+                        incr = [float(c.log_w) for c in chain]          # newest first
+                        last_corr = float(part.log_p_one) - float(part.log_p)
+                        total = sum(incr) + last_corr
+                        # the product of the incremental weights is the final target over the proposal probabilities: recompute the
+                        # target from the particle's tree (fixed-root density + order density of the tree as it is)
+                        lt = float(td.log_p_one(part.tree)) + float(RootPermutationDistribution.log_pdf(part.tree))
+                        if len(chain) != npts:
+                            ctx.fail("C08:swarm:%s:ancestry" % tag, "a final particle has %d ancestors for %d data points" % (len(chain), npts), replay)
+                        expect.append((total if thr == 0.0 else incr[0] + last_corr, total, lt))
+                        n_paths += 1
+                    ex = np.array([e[0] for e in expect])
+                    d1 = (logw - logw.max()) - (ex - ex.max())
+                    ctx.case(key=("swarm-weights", kind, dop, npts, thr), nontrivial=True)
+                    ctx.count("swarm_weight_runs")
+                    if np.max(np.abs(d1)) > 1e-8:
+                        ctx.fail("C08:swarm:%s:weights" % tag,
+                                 "final swarm weights of the single-pass sampler are not the %s of the particles' incremental weights (max log difference %.3g)" % ("product along the ancestry" if thr == 0.0 else "last incremental weight", float(np.max(np.abs(d1)))),
+                                 dict(replay, swarm_log_weights=[float(x) for x in logw], expected=[float(x) for x in ex]))
+    ctx.extra["swarm_weight_paths"] = n_paths
+
+
 def to_place(parent_spec, outcome_spec, new_idx):
     """Name the placement an outcome realises, relative to the parent's top-level clones in canonical order."""
     from ..trees import spec_nodes
@@ -210,6 +268,13 @@ def run(ctx):
             expect = lg - pg + (lpdf - ppdf) - lq
             if abs(lw - expect) > 1e-8 or len(e["lw"]) > 1 and max(e["lw"]) - min(e["lw"]) > 1e-8:
                 ctx.fail("C08:%s:weight" % tag, "log_w %.10f but target ratio - log_q = %.10f" % (lw, expect), dict(replay, outcome=spec))
+    # (4) "along every path the incremental weights multiply to the final target": the swarms the REAL samplers return.
+    # With resample_threshold = 0 the single-pass sampler (burn-in / UnconditionalSMCSampler) never resamples, so every final
+    # particle's weight is the product of the incremental weights of its ancestors, i.e. the final target of its path over the
+    # product of the proposal probabilities; with threshold 1 it resamples before every extension, so the weight is the last
+    # incremental weight alone.  Both are read off the particles' own ancestry and compared with the swarm's weights; the
+    # product along the path is also compared with log_p_one + log_pdf - sum log q recomputed from the trees.
+    _swarm_weight_paths(ctx)
     ok, bad, detail = coq.coq_eval_bool_cases(ctx, "corr", "From PV Require Import Model.ProposalsCases.\nOpen Scope nat_scope.", items, shard=40)
     ctx.extra["coq_corr_cases"] = len(items)
     if not ok:
